@@ -50,6 +50,7 @@ void sha1hash::getHash(const u8_t *input)
     temph[2] = lrot(temph[1], 30);
     temph[1] = temph[0];
     temph[0] = temp;
+    WENCRY_VERIF_ROUND(1, i, temph);
   }
   for (u32_t i = 0; i < 5; ++i)
     h[i] += temph[i];
